@@ -238,6 +238,22 @@ func runServerSession(c pcfg, plan []step, p *peer, tabA, tabB *serverTable) (re
 				res.violation = v
 				return res
 			}
+		case opBurst:
+			base := len(pool)
+			for range s.N {
+				tag++
+				p, err := e.clientPack(tag, int(tag%24))
+				if err != nil {
+					return fail("harness", "pack: %v", err)
+				}
+				pool = append(pool, p)
+			}
+			for _, k := range burstOrder(s.N, s.Pick) {
+				if v := present(i, pool[base+k]); v != "" {
+					res.violation = v
+					return res
+				}
+			}
 		case opAdvance:
 			time.Sleep(s.D)
 		}
